@@ -35,7 +35,7 @@ RULE = (
 ASSUMPTIONS = [
     "the compiled side is the PREBUILT extension of the pinned commit (no Cython in the sandbox): a later legitimate behavioural change of a *_cy.py file is reported as stale binaries",
     "exception messages are compared only for sqlalchemy.exc.* classes and messages the module constructs itself",
-    "documented Cython typing artefacts are normalised (listed with reasons in _ARTEFACTS; each normalised program is truncated at the artefact and counted in evidence notes)",
+    "documented Cython typing artefacts are normalised (listed with reasons in _artefact(); each normalised program is truncated at the artefact and counted in evidence notes)",
     "IdentitySet iteration order is compared (both builds are dict-backed; the source says 'the code assumes this class is ordered')",
     "private cdef attributes (_list, _members, type_, format_, _index) are not observed: they are not part of the Python-visible surface of the compiled classes",
     "a crash / hang / protocol error of the child interpreter is a harness error (exit 2), never a violation",
